@@ -180,7 +180,8 @@ def write_replay(pid: str, name: str, payload: Dict[str, Any]) -> str:
 def write_evidence(rep: Report, tier: str, seed: int, wall: float, n_viol: int, kf_hits: Dict[str, int]) -> str:
     os.makedirs(EVIDENCE_DIR, exist_ok=True)
     obl = rep.obligations
-    n_ob = len(obl)
+    under_finding = [o.name for o in obl if o.name in kf_hits and o.status != "discharged"]
+    n_ob = len(obl) - len(under_finding)  # obligations inside a recorded known-finding region are listed separately
     n_dis = sum(1 for o in obl if o.status == "discharged")
     cov: Dict[str, Any] = {
         "evaluations": rep.evaluations,
@@ -205,7 +206,8 @@ def write_evidence(rep: Report, tier: str, seed: int, wall: float, n_viol: int, 
             }
             for o in obl
         ],
-        "undecided_obligations": [o.name for o in obl if o.status == "undecided"],
+        "undecided_obligations": [o.name for o in obl if o.status == "undecided" and o.name not in under_finding],
+        "obligations_under_known_finding": under_finding,
         "failed_obligations": [o.name for o in obl if o.status == "failed"],
         "solver_seconds_total": round(sum(o.seconds for o in obl), 3),
         "bounded_label": rep.bounded_label,
